@@ -89,6 +89,8 @@ class ReplayEngine:
         self._old_default = torch.get_default_dtype()
         if self.f64:
             torch.set_default_dtype(torch.float64)
+        from . import engine as _eng
+        _eng.REPLAY_F64[0] = bool(self.f64)
         T.DIV_POLICY[0] = "xr"
         if any(k.startswith("rng") for k in self.model):
             self._rng = ReplayRNG(self)
@@ -100,6 +102,8 @@ class ReplayEngine:
             self._rng.__exit__(*a)
             self._rng = None
         torch.set_default_dtype(self._old_default)
+        from . import engine as _eng
+        _eng.REPLAY_F64[0] = False
         T.DIV_POLICY[0] = "assume"
         return False
 
